@@ -71,7 +71,7 @@ Proof.
 Qed.
 Print Assumptions C45_serve_iff.
 
-(** Every returned segment was registered under a requested group by an admitted
+(** Every returned segment was registered under a requested group by an accepted
     registration, ends at the requested destination and is returned once, in
     the newest registered version — after every history. *)
 Theorem C45_result_sound : forall end_of cfg ops q l,
@@ -148,7 +148,7 @@ Definition w_ops : list op :=
 Definition w_req := mkreq [2] (1, 11) (1, 13).
 
 (** The exact-answer half is refuted on the faithful model: the same segment is
-    registered under groups 1 and 2 by admitted registrations, yet a reader of
+    registered under groups 1 and 2 by accepted registrations, yet a reader of
     group 2 gets an empty answer. *)
 Theorem C45_result_exact_refuted : exists end_of cfg ops q l,
   segments end_of cfg q (exec end_of true cfg [] ops) = SOk l /\ ~ exact_answer end_of cfg ops q l.
